@@ -23,6 +23,10 @@ def run(prog: Program, rep: Report):
     r2_construction(prog, rep, im)
     r3_lookup(prog, rep, im)
     r4_derived(prog, rep, im)
+    # disjointness is decided by building a SpanSet: the constructor's "keep a span iff no span kept so far matches" clause (and the
+    # argument roles of its relation calls) is part of this property
+    from .c10 import SPAN_MOD, r2_sites
+    r2_sites(prog, rep, prog.cls("SpanSet", SPAN_MOD), rule="C16.R5", floor=3)
 
 
 def _raises(stmts) -> Optional[str]:
